@@ -92,6 +92,8 @@ def main(argv=None):
         plist = h.quick if tier == 'quick' else h.thorough
         for params in plist:
             budget = params.get('_budget', 240 if tier == 'quick' else 900)
+            if os.environ.get('SYMX_BUDGET'):
+                budget = float(os.environ['SYMX_BUDGET'])
             if a.v:
                 print('[%s] %s %r ...' % (prop, h.name, params), flush=True)
             s = explore.explore(modname, h, params, prop, budget, a.nproc,
@@ -119,6 +121,9 @@ def main(argv=None):
                           s['leaves'], s['decisions'], s['checks'],
                           s['solver_s'], s['wall'], s['complete'],
                           s['reached']), flush=True)
+                for site, cnt in sorted(s.get('fork_sites', {}).items(),
+                                        key=lambda kv: -kv[1])[:12]:
+                    print('      fork x%d at %s' % (cnt, site))
             for kid, hits in s['known'].items():
                 known_seen.setdefault(kid, (h, params, hits[0]))
             if s['violations']:
